@@ -22,6 +22,7 @@ def body(r):
     worlds += [swarm.build_world(r.seed, 30000 + i, "ins", ["res"], rr, p_fault=0.5, max_cycles=4) for i in range(n_ins)]
     swarm.run_swarm(r, PROP, worlds, oracles=ORACLES)
     return r.finish(
+        minimise=swarm.make_minimiser(PROP, (), ORACLES),
         rule=("seeded swarm of complete runs of both samplers, half with 1-4 kill-and-resume cycles, some cut by "
               "max_iteration; at the end of FlowSampler.run the result oracle recomputes evidence, error and "
               "posterior weights from the returned samples alone (independent reimplementation of the documented "
